@@ -11,7 +11,9 @@ from xf import AnchorLost
 
 def enc_term(kind, f, recv='self'):
     x = '%s.%s' % (recv, f)
-    if kind in ('u8', 'u16', 'u32', 'u128'):
+    if kind == 'u8':
+        return 'seq![%s]' % x
+    if kind in ('u16', 'u32', 'u128'):
         return 'enc_be(%s as nat, %d)' % (x, INT_WIDTH[kind])
     if kind == 'i32':
         return 'enc_be(i32_bits(%s), 4)' % x
@@ -31,6 +33,8 @@ def ok_term(kind, f, recv='self'):
         return 'name_ok(%s.lv())' % x
     if kind == 'cstr':
         return '%s.bytes().len() <= 255' % x
+    if kind == 'tail':
+        return '%s@.len() <= 65535' % x
     return None
 
 def dec_steps(fields, v='v'):
@@ -38,7 +42,9 @@ def dec_steps(fields, v='v'):
     steps = []
     for kind, f in fields:
         x = '%s.%s' % (v, f)
-        if kind in ('u8', 'u16', 'u32', 'u128'):
+        if kind == 'u8':
+            steps.append(('q + 1 <= data.len() && %s == data[q]' % x, 'q + 1'))
+        elif kind in ('u16', 'u32', 'u128'):
             n = INT_WIDTH[kind]
             steps.append(('q + %d <= data.len() && %s as nat == be_nat(data.subrange(q, q + %d))' % (n, x, n), 'q + %d' % n))
         elif kind == 'i32':
